@@ -41,7 +41,7 @@ func init() {
 		{"async-retry(C09 faults)", runC19Retry},
 		{"watch-overflow+subscribers-joining-leaving", runC19OverflowChurn},
 		{"lock-candidates(C14 concurrent)", runC14Concurrent},
-		{"two-nodes-follower-reads(C18 stress)", func(c *harness.Case) { runC18TwoNodes(c, false) }},
+		{"two-nodes-follower-reads(C18 stress)", func(c *harness.Case) { runC18TwoNodes(c, false, false) }},
 		{"follower-becomes-leader(C15 fail-over)", func(c *harness.Case) { c.Index = (c.Index / 6) * 6; runC15(c) }},
 	}
 	Registry["C19"] = &Prop{
